@@ -133,11 +133,46 @@ def cmp_expr(kind, got, val, tol=None):
         if kind == 'OXLTT': exp, f = vlib.clist([f'({vlib.fhex(a)}, {vlib.fhex(b)})' for a, b in val]), '(fun a b => feq (fst a) (fst b) && feq (snd a) (snd b))'
         else: exp, f = vlib.clist([f'({vlib.fhex(i.t1)}, {vlib.cpt(i.point)}, {vlib.fhex(i.t2)})' for i in val]), 'ix_feq'
         return f'match {got} with Some (Returns g_) => list_eqb {f} g_ {exp} | _ => false end'
+    if isinstance(kind, tuple) and kind[0] == 'R6':
+        # round 6 (Gen/Fit.v, Gen/Clip.v): ('R6', wrap, inner): wrap in {'X', 'O', 'OX'} (outcome / option / option (outcome _)); a PyRaised is
+        # `Raises <exc>`, PyRaised('OutOfFuel') -- Python's RecursionError -- is None
+        _, wrap, inner = kind
+        if hasattr(val, 'ctbl') and isinstance(val.value, PyRaised): val = val.value
+        if isinstance(val, PyRaised):
+            if val.exc == 'OutOfFuel': return f'match {got} with None => true | _ => false end' if 'O' in wrap else 'false'
+            if 'X' not in wrap: return 'false'
+            pat = f'Some (Raises {val.exc})' if wrap == 'OX' else f'Raises {val.exc}'
+            return f'match {got} with {pat} => true | _ => false end'
+        pat = {'OX': 'Some (Returns g_)', 'O': 'Some g_', 'X': 'Returns g_'}[wrap]
+        return f'match {got} with {pat} => {cmp_r6(inner, "g_", val)} | _ => false end'
     if kind == 'LIX':
         items = [f'({vlib.fhex(i.t1)}, {vlib.cpt(i.point)}, {vlib.fhex(i.t2)})' for i in val]
         f = 'ix_feq' if tol is None else f'(ix_fclose {vlib.fhex(tol)})'
         return f'list_eqb {f} ({got}) {vlib.clist(items)}'
     raise ValueError(kind)
+
+
+def cmp_r6(inner, g, val):
+    if inner == 'S': return f'feq {g} {vlib.fhex(float(val))}'
+    if inner == 'P': return f'pt_feq {g} {vlib.cpt(val)}'
+    if inner == 'seg4': return f'seg4_feq {g} {vlib.cseg(val)}' if len(val.points) == 4 else 'false'
+    if inner == 'LS': return f'list_eqb feq {g} {vlib.clist([vlib.fhex(float(x)) for x in val])}'
+    if inner == 'SZ': return f'(feq (fst {g}) {vlib.fhex(float(val[0]))} && Z.eqb (snd {g}) ({int(val[1])})%Z)'
+    if inner == 'OLseg4':      # None | a list of cubics
+        if val is None: return f'match {g} with None => true | Some _ => false end'
+        if any(len(x.points) != 4 for x in val): return 'false'
+        return f'match {g} with Some l_ => list_eqb seg4_feq l_ {vlib.clist([vlib.cseg(x) for x in val])} | None => false end'
+    if inner == 'PATHC4':      # a path of cubics as (segments, closed)
+        segs = val.asSegments()
+        if any(len(x.points) != 4 for x in segs): return 'false'
+        return f'(list_eqb seg4_feq (fst {g}) {vlib.clist([vlib.cseg(x) for x in segs])} && Bool.eqb (snd {g}) {vlib.cbool(bool(val.closed))})'
+    if inner == 'LPATHC':      # round 6: a list of paths, each (segments of mixed classes, closed)
+        val = val.value if hasattr(val, 'ctbl') else val
+        return f'list_eqb (fun a b => list_eqb gsegment_feq (fst a) (fst b) && Bool.eqb (snd a) (snd b)) {g} ' + \
+            vlib.clist(['(' + vlib.clist([vlib.csegment(x) for x in p_.asSegments()]) + ', ' + vlib.cbool(bool(p_.closed)) + ')' for p_ in val])
+    if inner == 'LLseg':       # a list of paths, each the list of its segments
+        return f'list_eqb (list_eqb gsegment_feq) {g} {vlib.clist([vlib.clist([vlib.csegment(x) for x in p_]) for p_ in val])}'
+    raise ValueError(inner)
 
 
 class PyRaised:
@@ -212,6 +247,8 @@ def carg(kind, v):
     if kind == 'SPLITLIST': return vlib.clist([f'({vlib.csegment(sg)}, {vlib.fhex(t)})' for sg, t in v])
     if kind == 'TPATH':     # round 5: a path as (segments with their _orig, closed)
         return f'({vlib.clist(["(" + vlib.csegment(x) + ", " + corig(x) + ")" for x in v.asSegments()])}, {vlib.cbool(bool(v.closed))})'
+    if kind == 'Z': return f'({int(v)})%Z'
+    if kind == 'CT': return CT6[v]
     if kind in ('RNG3', 'RNG4'): return f'(Ranged {vlib.cseg(v)} {vlib.fhex(v._range[0])} {vlib.fhex(v._range[1])})'     # a curve with its `_range`
     raise ValueError(kind)
 
@@ -786,6 +823,141 @@ PATHOPS_KERNELS = [
     K('Path_direction', ['TPATH'], catching(lambda p: float(p.direction)), 'OXS', term=fuelled('Path_direction')),
 ]
 NEW_KERNELS5 = PATHOPS_KERNELS
+# round 6 -- the curve fitter (Gen/Fit.v): every definition written with checked arithmetic; the loops run on FUEL6 iterations, the recursion of
+# _fitCurve on DEPTH6 nested calls (Python's RecursionError -- the corner re-entry that never ends -- is the model's None).  Strokes: the
+# families of tools/props/C14.py cut to at most 16 points (smooth, noisy, polylines, zigzags, repeats, closed, hash pairs, ..), also NOT
+# deduplicated, coincident, of length 0 / 1 / 2; error also negative (ValueError of math.sqrt) and cornerTolerance 0 / negative
+# (ZeroDivisionError of computeHook); budgets from 0.
+FUEL6, DEPTH6 = 200, 80
+def _r6(f, recursion=False):
+    def g(*a):
+        try: return f(*a)
+        except IndexError: return PyRaised('PyIndexError')
+        except ZeroDivisionError: return PyRaised('PyZeroDivisionError')
+        except ValueError: return PyRaised('PyValueError')
+        except TypeError: return PyRaised('PyTypeError')
+        except RecursionError:
+            if not recursion: raise
+            return PyRaised('OutOfFuel')
+    return g
+def fuel6(name): return lambda ops, cargs: f'{name} {ops} {FUEL6} {cargs}'
+def depth6(name): return lambda ops, cargs: f'{name} {ops} {FUEL6} {DEPTH6} {cargs}'
+def g_stroke(rng):
+    """point sequences for the fitter: the families of tools/props/C14.py, at most 16 points; sometimes coincident / very short / empty"""
+    from props import C14
+    fam, pts = C14.points_family(rng, n=rng.choice([2, 3, 3, 4, 5, 6, 8, 10, 13, 16]))
+    pts = pts[:16]
+    r = rng.random()
+    if r < 0.06: pts = [pts[0]] * rng.randint(1, 4)
+    elif r < 0.09: pts = []
+    elif r < 0.14: pts = pts[:rng.randint(1, 3)]
+    return [Point(x, y) for x, y in pts]
+def g_tangent(rng):
+    a = rng.uniform(0, 6.283)
+    return rng.choice([None, None, Point(0.0, 0.0), Point(math.cos(a), math.sin(a)), Point(1.0, 0.0)])
+def g_fiterror(rng): return rng.choice([0.01, 1.0, 50.0, 1e4, 10 ** rng.uniform(-2, 4), 10 ** rng.uniform(-2, 4), 0.0, -1e-9, -1.0 if rng.random() < 0.3 else 5.0])
+def g_fitct(rng): return rng.choice([0.1, 1.0, 20.0, 100.0, 10 ** rng.uniform(-1, 2), 10 ** rng.uniform(-1, 2), 0.0, -1.0 if rng.random() < 0.3 else 2.0])
+def g_budget(rng): return rng.choice([0, 1, 2, 3, 5, 8, 20, 20, 40, rng.randint(1, 30)])
+def g_center(rng): return rng.choice([0, 1, 1, 2, 2, 3, 4, 5, 7, -1, -2, 16, rng.randint(-3, 17)])
+def g_unit(rng):
+    a = rng.uniform(0, 6.283)
+    return rng.choice([Point(math.cos(a), math.sin(a)), Point(1.0, 0.0), Point(0.0, 0.0), Point(0.0, -1.0)])
+GEN.update({'STROKE': g_stroke, 'TANGENT': g_tangent, 'fiterror': g_fiterror, 'fitct': g_fitct, 'BUDGET': g_budget, 'CENTER': g_center, 'UNIT': g_unit})
+KIND.update({'STROKE': 'LP', 'TANGENT': 'OP', 'fiterror': 'S', 'fitct': 'S', 'BUDGET': 'Z', 'CENTER': 'Z', 'UNIT': 'P'})
+_CFc = CF.CurveFit
+def _params_after(f):
+    """a CurveFit method that updates a list argument in place: the list afterwards"""
+    def g(*a):
+        f(*a); return a[-1]
+    return g
+FIT6_KERNELS = [
+    K('Point___matmul__', ['P', 'P'], lambda a, b: a @ b, 'S'),
+    K('CurveFit_computeHook_zd', ['P', 'P', 't', 'seg4', 'S'], _r6(lambda a, b, t, bez, c: float(_CFc.computeHook(a, b, t, bez, c))), ('R6', 'X', 'S')),
+    K('CurveFit_chordLengthParameterize_zd', ['STROKE'], _r6(lambda pts: _CFc.chordLengthParameterize(pts)), ('R6', 'X', 'LS')),
+    K('CurveFit_fitLine', ['STROKE', 'TANGENT', 'TANGENT'], _r6(lambda d, a, b: _CFc.fitLine(d, a, b)), ('R6', 'X', 'seg4')),
+    K('CurveFit__leftTangent', ['STROKE'], _r6(lambda d: _CFc._leftTangent(d)), ('R6', 'X', 'P')),
+    K('CurveFit__rightTangent', ['STROKE'], _r6(lambda d: _CFc._rightTangent(d)), ('R6', 'X', 'P')),
+    K('CurveFit_centerTangent', ['STROKE', 'CENTER'], _r6(lambda d, c: _CFc.centerTangent(d, c)), ('R6', 'X', 'P'), libm=True),
+    K('CurveFit_leftTangent', ['STROKE', 'fiterror'], _r6(lambda d, t: _CFc.leftTangent(d, t)), ('R6', 'OX', 'P'), term=fuel6('CurveFit_leftTangent')),
+    K('CurveFit_rightTangent', ['STROKE', 'fiterror'], _r6(lambda d, t: _CFc.rightTangent(d, t)), ('R6', 'OX', 'P'), term=fuel6('CurveFit_rightTangent')),
+    K('CurveFit_estimateLengths', ['STROKE', 'LS', 'UNIT', 'UNIT'], _r6(lambda d, u, a, b: _CFc.estimateLengths(d, u, a, b)), ('R6', 'X', 'seg4')),
+    K('CurveFit_generateBezier', ['STROKE', 'LS', 'TANGENT', 'TANGENT', 'fiterror'], _r6(lambda d, u, a, b, e: _CFc.generateBezier(d, u, a, b, e)), ('R6', 'OX', 'seg4'),
+      term=fuel6('CurveFit_generateBezier')),
+    K('CurveFit_newtonRaphsonFind', ['seg4', 'P', 't'], _r6(lambda bez, p, u: float(_CFc.newtonRaphsonFind(bez, p, u))), ('R6', 'O', 'S'), term=fuel6('CurveFit_newtonRaphsonFind')),
+    K('CurveFit_reparameterize', ['seg4', 'STROKE', 'LS'], _r6(_params_after(lambda bez, pts, u: _CFc.reparameterize(bez, pts, u))), ('R6', 'OX', 'LS'),
+      term=fuel6('CurveFit_reparameterize')),
+    K('CurveFit_computeMaxError', ['seg4', 'STROKE', 'LS', 'S', 'fitct'], _r6(lambda bez, pts, u, tol, ct: _CFc.computeMaxError(bez, pts, u, tol, ct)), ('R6', 'X', 'SZ')),
+    K('CurveFit__fitCurve', ['STROKE', 'TANGENT', 'TANGENT', 'fiterror', 'fitct', 'BUDGET'],
+      _r6(lambda pts, a, b, e, ct, B: _CFc._fitCurve(pts, a, b, e, ct, B), recursion=True), ('R6', 'OX', 'OLseg4'), libm=True, term=depth6('CurveFit__fitCurve')),
+    K('CurveFit_fitCurve', ['STROKE', 'fiterror', 'fitct', 'BUDGET'],
+      _r6(lambda pts, e, ct, B: _CFc.fitCurve(pts, e, ct, B), recursion=True), ('R6', 'OX', 'OLseg4'), libm=True, term=depth6('CurveFit_fitCurve')),
+    K('Path_fromPoints', ['STROKE', 'fiterror', 'fitct', 'BUDGET'],
+      _r6(lambda pts, e, ct, B: _BP().fromPoints(pts, e, ct, B), recursion=True), ('R6', 'OX', 'PATHC4'), libm=True, term=depth6('Path_fromPoints')),
+]
+def _BP():
+    from beziers.path import BezierPath
+    return BezierPath
+# round 6 -- the Boolean-operation glue (Gen/Clip.v): clip / union / intersection / difference run on the real implementation with the recorder of
+# tools/props/clipglue.py around pyclipper (no repo edits).  The abstract parameters of the generated definitions are instantiated with
+#   toZ     := g_F_toZ (int() of a binary64, None outside Clipper's range / for nan, inf; PREAMBLE)
+#   clipper := the table of the recorded Execute call (cliptype, subject paths, clip paths as Clipper received them -> its answer); a call that
+#              was not recorded answers [[]] (an empty polygon: the model then raises IndexError, it never agrees by accident); when Python
+#              raised ClipperException (AddPath refused a path) the parameter is the constant None
+#   fmt_2f / keq := key2F / keyF_eqb as in rounds 4 and 5; FUEL for the loops and the curve-curve recursion.
+# Compared: the list of result paths (segments class by class, control points bit for bit, order, closed flag) or the exception.
+class ClipRun:
+    def __init__(self, value, ctbl, clipper_raised): self.value, self.ctbl, self.clipper_raised = value, ctbl, clipper_raised
+    def __repr__(self): return repr(self.value) if isinstance(self.value, PyRaised) else 'paths ' + repr([len(p.asSegments()) for p in self.value])
+CT6 = {0: 'Ct_intersection', 1: 'Ct_union', 2: 'Ct_difference', 3: 'Ct_xor'}
+def _clip_run(op):
+    def g(a, b, *rest):
+        from props import clipglue as cg
+        import pyclipper
+        if op == 'clip':
+            ct, flat = rest
+            real = cg.BezierPath.clip
+            run = cg.record_clip(a, b, 'union', flat) if False else None
+            # record_clip calls getattr(a, op)(b, flat=flat): route `clip` through a temporary method that fixes the clip type
+            name = '_clip_ct_%d' % ct
+            setattr(cg.BezierPath, name, lambda self, other, flat=False: self.clip(other, ct, flat))
+            try: run = cg.record_clip(a, b, name, flat)
+            finally: delattr(cg.BezierPath, name)
+        else:
+            (flat,) = rest
+            run = cg.record_clip(a, b, op, flat)
+        rec = run['rec']
+        if run['raised'] in ('ZeroDivisionError', 'RecursionError'): raise ZeroDivisionError(run['raised'])      # not modelled in Gen (mapx of splitAtPoints): dropped
+        exc = {'IndexError': 'PyIndexError', 'ClipperException': 'PyClipperError', 'ValueError': 'PyConvertError', 'OverflowError': 'PyConvertError',
+               'AssertionError': 'PyAssertionError'}
+        if run['raised'] is not None and run['raised'] not in exc: raise TypeError(run['raised'])
+        ctbl = '[]'
+        if rec.execute and rec.execute[0]['result'] is not None:
+            subj = [[(int(x), int(y)) for x, y in ap['path']] for ap in rec.addpath if ap['poly_type'] == pyclipper.PT_SUBJECT]
+            clp = [[(int(x), int(y)) for x, y in ap['path']] for ap in rec.addpath if ap['poly_type'] == pyclipper.PT_CLIP]
+            e = rec.execute[0]
+            ctbl = f"[({CT6[e['clip_type']]}, {cg.czpolys(subj)}, {cg.czpolys(clp)}, Some {cg.czpolys(e['result'])})]"
+        val = PyRaised(exc[run['raised']]) if run['raised'] is not None else run['result']
+        return ClipRun(val, ctbl, run['raised'] == 'ClipperException')
+    return g
+def clip_term(name):
+    def t(ops, cargs, val):
+        clipper = '(fun _ _ _ => None)' if val.clipper_raised else f'(g_clipper_tbl {val.ctbl})'
+        return f'{name} {ops} key2F keyF_eqb g_F_toZ {clipper} {FUEL} {cargs}'
+    return t
+def g_clippath(rng):
+    """(placeholder: the pair of paths is made in special_args)"""
+    from beziers.path import BezierPath
+    return BezierPath.fromSegments([])
+def g_cliptype(rng): return rng.choice([0, 1, 2, 3])
+GEN.update({'CLIPPATH': g_clippath, 'CLIPTYPE': g_cliptype}); KIND.update({'CLIPPATH': 'PATH', 'CLIPTYPE': 'CT'})
+CLIP6_KERNELS = [
+    K('Path_clip', ['CLIPPATH', 'CLIPPATH', 'CLIPTYPE', 'B'], _clip_run('clip'), ('R6', 'OX', 'LPATHC'), libm=True, termv=clip_term('Path_clip')),
+    K('Path_union', ['CLIPPATH', 'CLIPPATH', 'B'], _clip_run('union'), ('R6', 'OX', 'LPATHC'), libm=True, termv=clip_term('Path_union')),
+    K('Path_intersection', ['CLIPPATH', 'CLIPPATH', 'B'], _clip_run('intersection'), ('R6', 'OX', 'LPATHC'), libm=True, termv=clip_term('Path_intersection')),
+    K('Path_difference', ['CLIPPATH', 'CLIPPATH', 'B'], _clip_run('difference'), ('R6', 'OX', 'LPATHC'), libm=True, termv=clip_term('Path_difference')),
+]
+SEGEQ6_KERNELS = [K(f'{CLS[a]}___eq___{CLS[b]}', [a, b], (lambda x, y: x == y), 'B') for a in ('seg2', 'seg3', 'seg4') for b in ('seg2', 'seg3', 'seg4')]
+NEW_KERNELS6 = FIT6_KERNELS + SEGEQ6_KERNELS + CLIP6_KERNELS
 
 KERNELS = {k.name: k for k in (
     [K('Point___add__', ['P', 'P'], lambda a, b: a + b, 'P'), K('Point___sub__', ['P', 'P'], lambda a, b: a - b, 'P'),
@@ -823,10 +995,11 @@ KERNELS = {k.name: k for k in (
      K('Quad_toCubicBezier', ['seg3'], lambda s: s.toCubicBezier(), 'seg4'),
      K('Cubic_findExtremes_False', ['seg4'], lambda s: s.findExtremes(), 'LS'),
      K('Cubic_hasLoop', ['seg4'], lambda s: s.hasLoop, 'OSS'),
-     ] + seg_kernels('seg2') + seg_kernels('seg3') + seg_kernels('seg4') + NEW_KERNELS + NEW_KERNELS2 + NEW_KERNELS3 + NEW_KERNELS4 + NEW_KERNELS5)}
+     ] + seg_kernels('seg2') + seg_kernels('seg3') + seg_kernels('seg4') + NEW_KERNELS + NEW_KERNELS2 + NEW_KERNELS3 + NEW_KERNELS4 + NEW_KERNELS5 + NEW_KERNELS6)}
 
 # comparison of flattened edges: the line and its _orig (None, or the curve it was cut from, class included)
-PREAMBLE = '''Definition gsegment_feq (a b : segment float) : bool :=
+PREAMBLE = '''From Coq Require FloatOps SpecFloat.
+Definition gsegment_feq (a b : segment float) : bool :=
   match a, b with SLine x, SLine y => seg2_feq x y | SQuad x, SQuad y => seg3_feq x y | SCubic x, SCubic y => seg4_feq x y | _, _ => false end.
 Definition gedge_feq (a b : seg2 float * option (segment float)) : bool :=
   seg2_feq (fst a) (fst b) && match snd a, snd b with None, None => true | Some x, Some y => gsegment_feq x y | _, _ => false end.
@@ -837,11 +1010,32 @@ Definition gitem_feq (a b : shape float * bbox float) : bool := gshape_feq (fst 
 Definition gpair_feq (a b : shape float * shape float) : bool := gshape_feq (fst a) (fst b) && gshape_feq (snd a) (snd b).
 Definition gixss_feq (a b : segment float * segment float * (float * pt float * float)) : bool :=
   gsegment_feq (fst (fst a)) (fst (fst b)) && gsegment_feq (snd (fst a)) (snd (fst b)) && ix_feq (snd a) (snd b).
+(* round 6: int() of a binary64 as pyclipper applies it (None: nan, inf, outside +-(2^62 - 1)); the recorded Execute call *)
+Definition g_F_truncZ (x : float) : option Z :=
+  match FloatOps.Prim2SF x with
+  | SpecFloat.S754_zero _ => Some 0%Z
+  | SpecFloat.S754_finite s m e =>
+      let a := if (0 <=? e)%Z then (Zpos m * 2 ^ e)%Z else (Zpos m / 2 ^ (- e))%Z in
+      Some (if s then (- a)%Z else a)
+  | _ => None
+  end.
+Definition g_F_toZ (x : float) : option Z :=
+  match g_F_truncZ x with Some z => if (Z.abs z <? 4611686018427387904)%Z then Some z else None | None => None end.
+Definition g_zpt_eqb (a b : Z * Z) : bool := (fst a =? fst b)%Z && (snd a =? snd b)%Z.
+Definition g_ct_eqb (a b : clip_type) : bool :=
+  match a, b with Ct_intersection, Ct_intersection | Ct_union, Ct_union | Ct_difference, Ct_difference | Ct_xor, Ct_xor => true | _, _ => false end.
+Fixpoint g_clipper_tbl (tbl : list (clip_type * list (list (Z * Z)) * list (list (Z * Z)) * option (list (list (Z * Z))))) (ct : clip_type) (s c : list (list (Z * Z)))
+  : option (list (list (Z * Z))) :=
+  match tbl with
+  | [] => Some [[]]
+  | (ct', s', c', r) :: rest =>
+      if g_ct_eqb ct ct' && list_eqb (list_eqb g_zpt_eqb) s s' && list_eqb (list_eqb g_zpt_eqb) c c' then r else g_clipper_tbl rest ct s c
+  end.
 Fixpoint s_lookup4 (tbl : list (float * float * float)) (u v : float) : float :=
   match tbl with [] => PrimFloat.nan | (u', v', r) :: rest => if fbits_eq u u' && fbits_eq v v' then r else s_lookup4 rest u v end.
 '''
 IMPORTS = ['Gen.Utils', 'Gen.Point', 'Gen.Affine', 'Gen.BBox', 'Gen.Line', 'Gen.Quad', 'Gen.Cubic', 'Gen.CurveDist', 'Gen.Shapes', 'Gen.Fit', 'Gen.Sample',
-           'Gen.Nodelist', 'Gen.Sweep', 'Gen.Split', 'Gen.CurveCurve', 'Gen.MinDist', 'Gen.Winding', 'Gen.PathOps', 'Hand.CurveCurve']      # (Hand.CurveCurve: key2F / keyF_eqb)
+           'Gen.Nodelist', 'Gen.Sweep', 'Gen.Split', 'Gen.CurveCurve', 'Gen.MinDist', 'Gen.Winding', 'Gen.PathOps', 'Gen.Clip', 'Hand.CurveCurve']      # (Hand.CurveCurve: key2F / keyF_eqb)
 
 
 def clone_arg(kind, v):
@@ -910,6 +1104,49 @@ def special_args(k, rng, args):
             args[2] = u
         if data and rng.random() < 0.5:   # data near the curve
             args[1] = [bez.pointAtTime(rng.random()) + Point(rng.uniform(-2, 2), rng.uniform(-2, 2)) for _ in data]
+    if name in ('CurveFit_estimateLengths', 'CurveFit_generateBezier', 'CurveFit_reparameterize', 'CurveFit_computeMaxError'):
+        # round 6: parameters and curve as _fitCurve makes them (chord-length parameters of the stroke, the fitted cubic), sometimes arbitrary
+        i_pts = {'CurveFit_estimateLengths': 0, 'CurveFit_generateBezier': 0, 'CurveFit_reparameterize': 1, 'CurveFit_computeMaxError': 1}[name]
+        i_u = i_pts + 1
+        pts = args[i_pts]
+        if rng.random() < 0.85:
+            try: u = CF.CurveFit.chordLengthParameterize(pts)
+            except ZeroDivisionError: u = [0.0] * len(pts)
+            if rng.random() < 0.3: u = [min(1.0, max(0.0, x + rng.uniform(-0.02, 0.02))) for x in u]
+            args[i_u] = u
+        elif rng.random() < 0.5: args[i_u] = args[i_u][:len(pts)]
+        if i_pts == 1 and rng.random() < 0.8 and len(pts) >= 2:
+            try: args[0] = CF.CurveFit.generateBezier(pts, CF.CurveFit.chordLengthParameterize(pts), None, None, 1.0)
+            except Exception: pass
+        if name == 'CurveFit_computeMaxError': args[3] = rng.choice([math.sqrt(abs(g_fiterror(rng)) + 1e-9), 1.0, 0.1, 0.0 if rng.random() < 0.3 else 7.0])
+    if name == 'CurveFit_newtonRaphsonFind' and rng.random() < 0.7:
+        bez, pnt, u = args
+        args[1] = bez.pointAtTime(min(1.0, max(0.0, u + rng.uniform(-0.2, 0.2)))) + Point(rng.uniform(-3, 3), rng.uniform(-3, 3))
+    if name == 'CurveFit_computeHook_zd':
+        a, b, t, bez, c = args
+        d = bez.pointAtTime(t).distanceFrom(a.lerp(b, 0.5))
+        args[4] = rng.choice([d, d * 2 + 1.0, d / 2, abs(c), 0.0, -a.distanceFrom(b), -a.distanceFrom(b)])
+        if rng.random() < 0.15: args[1] = args[0].clone(); args[4] = 0.0      # allowed = 0: ZeroDivisionError
+    if '___eq___' in name and len(args[0].points) == len(args[1].points) and rng.random() < 0.7:
+        # round 6: Segment.__eq__ is Point.__eq__ (isclose, 1e-9 relative) point by point: equal, nearly equal, one point off
+        b = args[0].clone()
+        r = rng.random()
+        if r < 0.4:
+            q = b.points[rng.randrange(len(b.points))]
+            q.x = q.x * (1 + rng.choice([1e-10, -5e-10, 2e-9, 1e-8])) if q.x else rng.choice([0.0, -0.0, 1e-300])
+        elif r < 0.6:
+            q = b.points[rng.randrange(len(b.points))]; q.y = q.y + rng.choice([1.0, -1e-3, 1e-12])
+        args[1] = b
+    if name in ('Path_clip', 'Path_union', 'Path_intersection', 'Path_difference'):
+        # round 6: the pairs of shapes of tools/props/clipglue.py (crossing, nested, disjoint, touching; lines, quadratics, cubics), sometimes a
+        # path too short for Clipper (ClipperException) or an empty one
+        from props import clipglue as cg
+        from beziers.path import BezierPath
+        A, B, _m = cg.gen_pair(rng, big=False if rng.random() < 0.9 else None)
+        r = rng.random()
+        if r < 0.06: B = BezierPath.fromSegments(list(B.asSegments())[:rng.choice([0, 1, 2])])
+        elif r < 0.12: A = BezierPath.fromSegments(list(A.asSegments())[:rng.choice([0, 1, 2])])
+        args[0], args[1] = A, B
     if name == 'Path_splitAtPoints': args[1] = g_splitlist_for(rng, args[0])
     if name in ('Path_windingNumberOfPoint', 'Path_pointIsInside') and getattr(args[0], '_cps', None):
         from props import C11
@@ -959,7 +1196,7 @@ def special_args(k, rng, args):
     return args
 
 
-def cross_check(pid, names, n_per, rng, tag='kern'):
+def cross_check(pid, names, n_per, rng, tag='kern', per_file=400, timeout=600):
     """returns the run_case_files result extended with distribution/samples/first_disagreement"""
     px = proxy()
     cases, meta, dist = [], [], {}
@@ -989,7 +1226,7 @@ def cross_check(pid, names, n_per, rng, tag='kern'):
             meta.append({'kernel': nm, 'args': [repr(a) if not hasattr(a, 'matrix') else a.matrix for a in args], 'python': repr(val)[:200]})
             made += 1
         dist[nm] = {'cases': made, 'python_raised': raised}
-    res = vlib.run_case_files(pid, tag, IMPORTS, PREAMBLE, cases)
+    res = vlib.run_case_files(pid, tag, IMPORTS, PREAMBLE, cases, per_file=per_file, timeout=timeout)
     res['python_outcomes'] = {}
     for m in meta:
         o = m['python'] if m['python'].startswith('raised ') else 'returned'
